@@ -10,6 +10,9 @@ Specification:
   spec/Isa4004.tla, spec/Isa6800.tla   the ISA tables (shared with C14)
   spec/Dasm_MC.tla   (M) exhaustive over all small images;  spec/Dasm_Gen.tla, spec/Dasm_Cover.tla  (G) image generators
   spec/Dasm87_Gen.tla  87C800 displacement / distance fields and their limit classes (no instruction table)
+  spec/DasmSole_Gen.tla  (G) SOLE-EDGE images for all three targets: a routine reachable ONLY through the target operand of
+                     one control-transfer instruction; spec/Isa87FlowX.tla = the 87C00 control-flow table of C03
+                     (spec/Isa87Flow.tla: NOP, RET, RETI, JRS T/F, JR cc, JR, JP, CALL) + RETN + CALLP (CallpInPageFF)
 
 (M) TLC, all images of 3 (thorough: 4) cells with representative bytes, 1..2 entry addresses incl. the address behind
     the image, 6800 with an optional vector: termination (liveness `<>Done` and a step bound), InsideImage, marked code
@@ -35,7 +38,27 @@ Specification:
     text, the cause is classified from the failing line and (diagnosis only) repaired so that the remaining checks
     still run; every cause is a separate finding key.
     SPEC-DRIFT only: listed areas = areas marked by the Dasm model (deco68 stops behind clv/sev/txs/lds/sts ext).
-87C800: no TLA+ instruction table.  (a) Images are assembled from the golden tests/t_87c800 source (whole program and
+(G2) SOLE-EDGE images (round 6; DasmSole_Gen): which EDGE of the control-flow graph is the only way to a routine.  In the
+    streams of Dasm_Gen / Dasm_Cover / the golden slices nearly every branch target is also reached by fall-through, so a
+    successor that a Disassemble() callback prints as a label but does not report to the tracer was invisible.  Image =
+    `E: <pre NOPs> X [closer]` + `T: NOP term`, T behind or in front of E, only entry E.  X = EVERY form with a target
+    operand of the three tables x every register / condition / 4-bit operand value (87C00: JRS T, JRS F, JR cc x 8, JR,
+    JP, CALL, CALLP (page FF); 6800: BRA, 14 Bcc, BSR, JMP ext, JSR ext; 4004: JUN, JMS, ISZ x 16, JCN x 16 masks); closer
+    (X conditional / call) = every non-falling-through form: jump back to E, jump to itself, every return, indirect jumps;
+    term = every return form or a jump back to E.  "Reachable only through X" is decided by the MODEL, not by the
+    layout: T is in Dasm's reachability closure and not in the closure of the image whose decode at X has lost its target
+    successor (Sole); e.g. 87C00 images closed by RET/RETI/RETN are sole only with T in front (RetFallsThrough).  TLC checks
+    on every image: the worklist ends, marks exactly ReachBytes, the whole target routine is code, control flow stays on
+    instruction starts, and without the edge no byte of the target routine is code; the harness checks that every variant
+    x {behind, before} occurs (else CHECK-ERROR).  The images go through the same judge_image as the others (-binfile and
+    -hexfile, label = target of the table, asl accepts, bytes equal, areas disjoint/inside).  An unreported successor
+    leaves the label undefined -> "asl rejects the disassembly" (VIOLATION); "the target routine is not listed as code" by
+    itself is SPEC-DRIFT like every area comparison.  quick: 87C00 272 + 6800 456 + 4004 140 images (one NOP in front; term
+    = first return / jump back; inner values of 4-bit operands in one context; lowest legal load address of {200h|100h,
+    FF00h|F00h}); thorough: pre 0..1, all terms, all values in all contexts, both load addresses.
+    NOT in this dimension: 87C00 CALLV (target read from the vector cells FFC0+2n: a function of the image, not of the
+    instruction), indirect JP/CALL (no target), two sole edges in one image, sole targets inside another instruction.
+87C800: no TLA+ instruction table of the whole set.  (a) Images are assembled from the golden tests/t_87c800 source (whole program and
     12-instruction slices, entry = first address); round trip + disjoint/inside checks, NO reachability oracle; an
     image whose branches leave the image is outside the property's domain and not judged.
     (b) FIELD-LIMIT images (operand field limits on the disassembler side; the golden source has no -128): spec/
@@ -54,9 +77,11 @@ Specification:
     construction, an undefined label is a rejected disassembly (never "out of domain"), and the label printed for
     jr / jrs must be the target TLC's offset defines.  (HL+0) is assembled as (HL) (no field; round trip only).
 
-quick: 2 x 2 x 150 simulated traces + 44 coverage images + 328 page-edge images + 31 golden 87C800 images (20 of
-them slices relocated to origins F0..100h and 7FF7h) + 318 87C800 field-limit images; thorough: 2 x 4 x 5000 traces and
-4-cell exhaustive models.  Measured (VERIF_JOBS=6, machine shared): quick 63 s (TLC pool 43 s, 567 + 31 + 318 images 16 s).
+quick: 2 x 2 x 150 simulated traces + 44 coverage images + 328 page-edge images + 868 sole-edge images + 31 golden 87C800
+images (20 of them slices relocated to origins F0..100h and 7FF7h) + 318 87C800 field-limit images; thorough: 2 x 4 x 5000
+traces, 4-cell exhaustive models, full sole-edge product.  Measured (VERIF_JOBS=6, machine shared): quick 63 s before the
+sole-edge images (TLC pool 43 s, 567 + 31 + 318 images 16 s); the sole-edge images add 3 single-worker TLC runs of 12-25 s
+inside the pool (pool widened 5 -> 6) and ~12 s of round trips (868 images).
 
 NOT covered: CPU name 6802 (dasl knows it, asl does not); -symbol; LSB vectors; images with several chunks; forced
 extended addressing of page-0 operands on the 6800; vectors on the 4004 (dasl prints `dw`, unknown to that target);
@@ -80,6 +105,10 @@ Mutations tried on a scratch copy containing the proposed fixes (`VERIF_REPO=...
   by the golden slices, which contain no -128) -> 28 field-limit images rejected ("range overflow"), quick tier, 66 s;
   deco87c800.c jr cc: `Dist & 0x80` -> `Dist > 0x80` (12 images: wrong target label + undefined symbol) and jrs t:
   `Dist & 0x10` -> `Dist > 0x10` (1 image, d = -16), quick tier.
+  Successor not reported (round 6, sole-edge images, quick tier; all MISSED before): deco87c800.c JRS F target stored with
+  `NextAddresses[1] =` without counting it (22 images rejected, "symbol undefined"); the same for CALLP (22 images);
+  deco68.c table entry of bne: successor flags 3 -> 1 (28 images); deco4004.c table entry of opcode 14 (jcn 4): 3 -> 1
+  (2 images: the inner mask values have one context per position in the quick tier).
 """
 import os
 import re
@@ -229,8 +258,11 @@ def judge_image(rep, bld, im, dcpu, aslcpu, oracle=True):
                     lo -= 1
                 if lo in set(im["stopends"]):
                     cause = "traced-into-data-behind-indirect-jump"
-        rep.violation("%s: asl rejects the disassembly (cause %s): line '%s': %s"
-                      % (im["isa"], cause, line.strip()[:60], " | ".join(msgs.strip().splitlines()[:2])[:200]),
+        so = im.get("sole")
+        edge = (" [sole-edge image: the routine at %04X is reachable only through the %s at %04X]"
+                % (so["target"], so["form"], so["at"])) if so else ""
+        rep.violation("%s: asl rejects the disassembly (cause %s): line '%s': %s%s"
+                      % (im["isa"], cause, line.strip()[:60], " | ".join(msgs.strip().splitlines()[:2])[:200], edge),
                       case=im, files=dict(files, **{"reasm.asm": "\tcpu\t%s\n%s" % (aslcpu, text)}),
                       key=(dict(base, kind="rejected", cause=cause)))
         # remedies (diagnosis only)
@@ -263,6 +295,10 @@ def judge_image(rep, bld, im, dcpu, aslcpu, oracle=True):
                           key=(dict(base, kind="bytes-differ", cause=cause)))
     if oracle:
         want_code, want_data = set(im["code"]), set(im["data"])
+        so = im.get("sole")
+        if so and not set(so["tbytes"]) <= code:
+            return "sole edge: the routine at %04X, reachable only through the %s at %04X, is not disassembled (dasl lists code %s)" % (
+                so["target"], so["form"], so["at"], dasm.intervals(code))
         if code != want_code or dat != want_data:
             return "areas: dasl lists code %s data %s, the Dasm model marks code %s data %s" % (
                 dasm.intervals(code), dasm.intervals(dat), dasm.intervals(want_code), dasm.intervals(want_data))
@@ -389,9 +425,11 @@ def main(tier):
     rep = Report(PID, tier)
     bld = build.get("hook")
     quick = tier == "quick"
-    rep.assumptions += ["ISA tables Isa4004 / Isa6800 are the reference for lengths and successors; 87C800 has no table: "
-                        "round trip and disjoint/inside checks only, no reachability oracle; its displacement fields "
-                        "(Dasm87_Gen) are exercised only through the statement templates of the golden source",
+    rep.assumptions += ["ISA tables Isa4004 / Isa6800 are the reference for lengths and successors; 87C800 has no table of "
+                        "the whole instruction set: golden images get round trip and disjoint/inside checks only, no "
+                        "reachability oracle; its displacement fields (Dasm87_Gen) are exercised only through the statement "
+                        "templates of the golden source; its control-transfer forms (Isa87FlowX: no CALLV, CALLP only in "
+                        "page FF) have the Dasm reachability oracle in the sole-edge images",
                         "dasl output is prefixed with `cpu <name>` only; images are single-chunk, loaded by -binfile and -hexfile",
                         "renderers, hex writer and byte comparison (Python) are trusted; images, entries and predicted areas are TLC's"]
     # (M) ---------------------------------------------------------------------------------------------
@@ -592,7 +630,8 @@ def main(tier):
     return rep.finish(
         rule="images = valid instruction streams drawn by TLC -simulate from Dasm_Gen (%d traces per ISA x worker; "
              "10-12 items; all forms of Isa4004/Isa6800 weighted by category; operands from limit/pattern/random pools; "
-             "1..4 entries; 6800: vectors) + golden t_87c800 whole/slices + every golden 87C800 statement template with a "
+             "1..4 entries; 6800: vectors) + sole-edge images of DasmSole_Gen (every control-transfer variant of the three "
+             "targets as the only way to a routine, x position x closer x end of the routine) + golden t_87c800 whole/slices + every golden 87C800 statement template with a "
              "displacement / distance field x the field-limit classes of Dasm87_Gen; distinct = distinct (org, bytes, entries); "
              "non-trivial = more than one code byte reachable" % n, exhaustive=False)
 
